@@ -108,17 +108,45 @@ G2Defs == <<
   V(Struct("FooG2", Mod, <<Param("T"), Param("U")>>, <<SField("a", T), SField("b", U)>>)),
   V(Struct("FooR", Mod, <<>>, <<SField("next", P_Opt(P_Box(A0("FooR")))), SField("v", u8)>>)),
   V(Struct("FooR2", Mod, <<>>, <<SField("next", P_Opt(P_Box(A0("FooR2")))), SField("v", u16)>>)),
+  V(Struct("FooA3", Mod, <<Param("C"), Param("U"), Param("W")>>, <<SField("f", P_Assoc("C", "X")), SField("g", U), SField("h", P_Param("W"))>>)),
   Struct("Bar", Mod, <<Param("T")>>, <<SField("v", T)>>),
   Struct("Ph", Mod, <<Skipped("C")>>, <<SField("v", u8)>>),
   Struct("Qh", Mod, <<Skipped("C")>>, <<SField("w", bool)>>),
   Struct("C1", Mod, <<>>, <<>>), Struct("C2", Mod, <<>>, <<>>),
   Struct("Foo1", Mod, <<>>, <<SField("a", bool)>>), Struct("Foo2", Mod, <<>>, <<SField("a", str)>>) >>
+\* version members Foo{a: e} / Foo(e) / enum Foo{V(e)} for every small shape e
+ShapePool == {u8, u16, P_Arr(u8, 2), P_Arr(u8, 3), P_Arr(u16, 2), P_Vec(u8), P_Vec(u16), P_Tup(<<u8, u16>>), P_Tup(<<u8, u8>>), P_Tup(<<u8>>),
+              P_Opt(u8), P_Opt(u16), P_Compact(u8), P_Compact(u16), P_Adt("Bar", <<u8>>), P_Adt("Bar", <<u16>>), P_Bits("u8", "Lsb0"), P_Bits("u8", "Msb0"),
+              P_Bits("u16", "Lsb0"), P_BTreeMap(u8, u16), P_BTreeMap(u8, u8), P_Res(u8, u16), P_Res(u16, u8), str, bool, P_Box(u8), P_Vec(P_Vec(u8)),
+              P_Arr(P_Arr(u8, 2), 2), P_Arr(P_Arr(u8, 3), 2), P_Range(u8), P_RangeI(u8), P_NZ("u8"), P_NZ("u16")}
+RECURSIVE ShapeName(_)
+ShapeName(e) == Render(e)
+ShapeDef(e, form) ==
+  LET n == "FooS_" \o form \o "_" \o Render(e) IN
+  V(CASE form = "n" -> Struct(n, Mod, <<>>, <<SField("a", e)>>)
+      [] form = "u" -> Struct(n, Mod, <<>>, <<SField("", e)>>)
+      [] form = "c" -> Struct(n, Mod, <<>>, <<CField("a", e)>>)
+      [] form = "v" -> Enum(n, Mod, <<>>, <<Variant("A", 0, <<>>), Variant("B", 1, <<SField("", e)>>)>>))
+ShapeProg(e1, f1, e2, f2) == Program(<<ShapeDef(e1, f1), ShapeDef(e2, f2), Struct("Bar", Mod, <<Param("T")>>, <<SField("v", T)>>)>>, <<>>)
+G2Shapes(z) == {[fam |-> "G2s", prog |-> ShapeProg(q[1], f, q[2], f), roots |-> <<A0("FooS_" \o f \o "_" \o Render(q[1])), A0("FooS_" \o f \o "_" \o Render(q[2]))>>]
+                  : q \in {x \in ShapePool \X ShapePool : x[1] # x[2]}, f \in {"n", "v"}}
+               \cup {[fam |-> "G2s", prog |-> ShapeProg(e, "n", e, "c"), roots |-> <<A0("FooS_n_" \o Render(e)), A0("FooS_c_" \o Render(e))>>] : e \in {u8, u16}}
+               \cup {[fam |-> "G2s", prog |-> ShapeProg(e, "n", e, "u"), roots |-> <<A0("FooS_n_" \o Render(e)), A0("FooS_u_" \o Render(e))>>] : e \in {u8, P_Vec(u8)}}
+
 G2Prog == Program(G2Defs, <<CfgC1, CfgC2>>)
 G2Members == {P_Adt("FooG", <<u8>>), P_Adt("FooG", <<u16>>), P_Adt("FooG", <<bool>>), A0("FooC8"), A0("FooC16"),
               P_Adt("FooA", <<A0("C1")>>), P_Adt("FooA", <<A0("C2")>>), P_Adt("FooA2", <<A0("C1")>>), P_Adt("FooA2", <<A0("C2")>>),
               A0("FooX"), A0("FooX2"), A0("FooE"), A0("FooE2"), A0("FooE3"), A0("FooT"), A0("FooT2"),
-              P_Adt("FooV", <<u32>>), P_Adt("FooV", <<u8>>), P_Adt("FooG2", <<u8, bool>>), A0("FooR"), A0("FooR2")}
-G2Case(roots) == [fam |-> "G2p", prog |-> G2Prog, roots |-> roots]
+              P_Adt("FooV", <<u32>>), P_Adt("FooV", <<u8>>), P_Adt("FooG2", <<u8, bool>>), A0("FooR"), A0("FooR2"),
+              P_Adt("FooA3", <<A0("C1"), u8, u16>>), P_Adt("FooA3", <<A0("C2"), u8, u16>>)}
+\* the (large) program is referenced by name so that the case records stay small: see ProgOf
+NoProg == [defs |-> <<>>, cfgs |-> <<>>]
+G2Case(roots) == [fam |-> "G2p", pid |-> "G2", prog |-> NoProg, roots |-> roots]
+ProgOf(c) == IF c.fam = "G2p" THEN G2Prog ELSE c.prog
+G2MembersSmall == {P_Adt("FooG", <<u8>>), P_Adt("FooG", <<u16>>), A0("FooC8"), A0("FooC16"), P_Adt("FooA", <<A0("C1")>>), P_Adt("FooA", <<A0("C2")>>),
+                   P_Adt("FooV", <<u32>>), P_Adt("FooV", <<u8>>), A0("FooE"), A0("FooT")}
+TriplesSmall(z) == {q \in G2MembersSmall \X G2MembersSmall \X G2MembersSmall : q[1] # q[2] /\ q[1] # q[3] /\ q[2] # q[3]}
+G2p_3s(z) == {G2Case(<<q[1], q[2], q[3]>>) : q \in TriplesSmall(z)} \cup {G2Case(<<q[1], q[2], q[3], A0("Foo1")>>) : q \in TriplesSmall(z)}
 Pairs(z) == {q \in G2Members \X G2Members : q[1] # q[2]}
 Triples(z) == {q \in G2Members \X G2Members \X G2Members : q[1] # q[2] /\ q[1] # q[3] /\ q[2] # q[3]}
 G2p_2(z) == {G2Case(<<q[1], q[2]>>) : q \in Pairs(z)}
